@@ -153,6 +153,8 @@ def _replay1(contract, model, opaque_vals):
     for n, kind in contract.params.items():
         if kind in simple:
             env[n] = model_value(model, n, kind)
+        elif kind == "none":
+            env[n] = None
     for pth, kind in contract.paths.items():
         if kind not in simple and pth not in opaque_vals:
             return None
